@@ -6,7 +6,7 @@
 import Relic.Base.Bytes
 namespace Relic.Options
 
-inductive SigType | pecoff | msi | cab | ps | jar | apk | appx | vsix | xap | cat | deb | rpm | dmg | xar
+inductive SigType | pecoff | msi | cab | ps | jar | apk | appx | vsix | xap | cat | deb | rpm | dmg | xar | pgp
   deriving Repr, DecidableEq
 inductive KeyKind | rsa | p256 | p384 | p521
   deriving Repr, DecidableEq
@@ -22,7 +22,7 @@ inductive Verdict
 def parseType : String → Option SigType
   | "pe-coff" => some .pecoff | "msi" => some .msi | "cab" => some .cab | "ps" => some .ps | "jar" => some .jar
   | "apk" => some .apk | "appx" => some .appx | "vsix" => some .vsix | "xap" => some .xap | "cat" => some .cat
-  | "deb" => some .deb | "rpm" => some .rpm | "dmg" => some .dmg | "xar" => some .xar | _ => none
+  | "deb" => some .deb | "rpm" => some .rpm | "dmg" => some .dmg | "xar" => some .xar | "pgp" => some .pgp | _ => none
 def parseKey : String → Option KeyKind
   | "rsa" => some .rsa | "p256" => some .p256 | "p384" => some .p384 | "p521" => some .p521 | _ => none
 def parseHash : String → Option Hash
@@ -31,7 +31,7 @@ def parseHash : String → Option Hash
 
 /-- signers whose certificate type is PGP -/
 def needsPgp : SigType → Bool
-  | .deb | .rpm => true
+  | .deb | .rpm | .pgp => true
   | _ => false
 
 def hashOk : SigType → Hash → Bool
@@ -40,6 +40,7 @@ def hashOk : SigType → Hash → Bool
   | .dmg, h => h == .sha1 || h == .sha256 || h == .sha384    -- code directory hash types
   | .xar, h => h == .sha1 || h == .sha256 || h == .sha512
   | .deb, h => h != .sha1                                    -- go-crypto refuses SHA-1 signatures
+  | .pgp, h => h != .sha1
   | _, _ => true
 
 /-- page hashes exist for SHA-1 and SHA-256 only -/
